@@ -618,6 +618,32 @@ def rule_dispatch(chk, prog):
                             and isinstance(n.test.ops[0], ast.In):
                         closed.setdefault(_term(r_[0]), []).append((frozenset(r_[1]), "%s:%s" % (rel, pf.qualname(fn))))
     chk.extra["validated_closed_sets"] = {k: [sorted(s) for s, _ in v] for k, v in closed.items()}
+    # the allowed sets must be collections: `x in NAME` with NAME = ("only") -- a plain str -- is a substring test
+    for rel, mod in prog.modules.items():
+        seen_names = set()
+        for node in ast.walk(mod.ast):
+            if isinstance(node, ast.Compare) and len(node.ops) == 1 and isinstance(node.ops[0], (ast.In, ast.NotIn)) \
+                    and isinstance(node.comparators[0], ast.Name):
+                nm = node.comparators[0].id
+                val = mod.assigns.get(nm)
+                hops = 0
+                while isinstance(val, ast.Name) and hops < 4:
+                    val = mod.assigns.get(val.id)
+                    hops += 1
+                if val is None or nm in seen_names:
+                    continue
+                if isinstance(node.left, ast.Constant):
+                    continue  # "lit" in NAME: a deliberate substring / element test on a known left side
+                seen_names.add(nm)
+                inst = "%s: `%s` used in a membership test is a collection" % (rel, nm)
+                if isinstance(val, ast.Constant) and isinstance(val.value, str):
+                    fn = pf.enclosing_func(node)
+                    chk.violation("dispatch", rel, pf.qualname(fn) if fn else "<module>", "%s is a str" % nm, node.lineno,
+                                  "`%s` tests membership in the module-level constant %s = %r, which is a plain string "
+                                  "(parentheses without a comma do not make a tuple): the test is a SUBSTRING test and "
+                                  "accepts %r, %r, ..." % (pf.src(node), nm, val.value, "", val.value[:1]), instance=inst)
+                elif isinstance(val, (ast.List, ast.Tuple, ast.Set, ast.Dict)):
+                    chk.ok("dispatch", inst)
     n = 0
     unval = {}
     for rel, mod in prog.modules.items():
@@ -1146,6 +1172,7 @@ FROZEN_CALL_GUARDS = {
         'c:contract_rad_to_orb#2:dtype': 1,
         'c:contract_rad_to_orb#2:ndim': 1,
         'c:contract_rad_to_orb#2:size': 1,
+        'c:contract_rad_to_orb#2:values': 1,
         'c:contract_rad_to_orb#3:contig': 1,
         'c:contract_rad_to_orb#3:dtype': 1,
         'c:generate_atc_basis_set#1:contig': 1,
@@ -1311,6 +1338,9 @@ FROZEN_CALL_GUARDS = {
         'c:eval_cubic_interp#3:contig': 1,
         'c:eval_cubic_interp#3:dtype': 1,
         'c:eval_cubic_interp#3:shape': 1,
+        'c:eval_cubic_interp#4:contig': 1,
+        'c:eval_cubic_interp#4:dtype': 1,
+        'c:eval_cubic_interp#4:shape': 1,
         'c:eval_cubic_interp_noderiv#0:contig': 1,
         'c:eval_cubic_interp_noderiv#0:dtype': 1,
         'c:eval_cubic_interp_noderiv#1:contig': 1,
@@ -1351,9 +1381,12 @@ FROZEN_CALL_GUARDS = {
         'c:mulexp#1:size': 1,
         'c:mulexp#2:size': 1,
         'c:pasdw_reduce_g#0:contig': 1,
+        'c:pasdw_reduce_g#0:dtype': 1,
         'c:pasdw_reduce_g#0:size': 1,
         'c:pasdw_reduce_g#1:contig': 1,
+        'c:pasdw_reduce_g#1:dtype': 1,
         'c:pasdw_reduce_g#2:contig': 1,
+        'c:pasdw_reduce_g#2:dtype': 1,
         'c:pasdw_reduce_g#3:contig': 1,
         'c:pasdw_reduce_g#3:dtype': 1,
         'c:pasdw_reduce_g#3:ndim': 1,
@@ -1361,9 +1394,12 @@ FROZEN_CALL_GUARDS = {
         'c:pasdw_reduce_g#3:shape[0]': 1,
         'c:pasdw_reduce_g#3:shape[1]': 1,
         'c:pasdw_reduce_i#0:contig': 1,
+        'c:pasdw_reduce_i#0:dtype': 1,
         'c:pasdw_reduce_i#0:size': 1,
         'c:pasdw_reduce_i#1:contig': 1,
+        'c:pasdw_reduce_i#1:dtype': 1,
         'c:pasdw_reduce_i#2:contig': 1,
+        'c:pasdw_reduce_i#2:dtype': 1,
         'c:pasdw_reduce_i#3:contig': 1,
         'c:pasdw_reduce_i#3:dtype': 1,
         'c:pasdw_reduce_i#3:ndim': 1,
@@ -1389,18 +1425,21 @@ FROZEN_CALL_GUARDS = {
         'c:evaluate_se_kernel#1:dtype': 1,
         'c:evaluate_se_kernel#1:shape': 1,
         'c:evaluate_se_kernel#2:contig': 1,
+        'c:evaluate_se_kernel#2:shape[-1]': 1,
         'c:evaluate_se_kernel_antisym#0:contig': 1,
         'c:evaluate_se_kernel_antisym#0:shape': 1,
         'c:evaluate_se_kernel_antisym#1:contig': 1,
         'c:evaluate_se_kernel_antisym#1:dtype': 1,
         'c:evaluate_se_kernel_antisym#1:shape': 1,
         'c:evaluate_se_kernel_antisym#2:contig': 1,
+        'c:evaluate_se_kernel_antisym#2:shape[-1]': 1,
         'c:evaluate_se_kernel_spin#0:contig': 1,
         'c:evaluate_se_kernel_spin#0:shape': 1,
         'c:evaluate_se_kernel_spin#1:contig': 1,
         'c:evaluate_se_kernel_spin#1:dtype': 1,
         'c:evaluate_se_kernel_spin#1:shape': 1,
         'c:evaluate_se_kernel_spin#2:contig': 1,
+        'c:evaluate_se_kernel_spin#2:shape[-1]': 1,
     },
     'ciderpress/lib/fft_plan.py': {
         'c:allocate_fftnd_plan#1:contig': 1,
@@ -2372,7 +2411,7 @@ def _analyse_own(chk):
     chk.floor("param-guards", 15, "half of the guarded-parameter table")
     chk.floor("dispatch", 12, "half of the multi-arm string ladders")
     chk.floor("expnt-guard", 1, "eval_feat_exp")
-    chk.floor("guards", 280, "half of the 561 frozen guard signatures")
+    chk.floor("guards", 287, "half of the 574 frozen guard signatures")
     chk.floor("mirror", 2, "ConvolutionCollection: nalpha, nbeta, has_vj (x flag configurations)")
     chk.floor("noncontig", 150, "half of the array pointer arguments at the ctypes call sites")
     chk.floor("bound-prov", 5, "(validated array, loop bound) pairs")
@@ -2545,6 +2584,16 @@ def mutants(tree):
         Mutant("noncontig: attribute holds an inner-axis slice", "ciderpress/dft/lcao_interpolation.py",
                "            self._gaunt_coeff = get_deriv_ylm_coeff(self.lmax)",
                "            self._gaunt_coeff = get_deriv_ylm_coeff(self.lmax + 1)[:, : (self.lmax + 1) ** 2]", expect="noncontig"),
+        # ---- rules of round 13
+        Mutant("dispatch: allowed set degenerates to a plain string", ST, 'ALLOWED_RHO_DAMPS = ["exponential"]',
+               'ALLOWED_RHO_DAMPS = ("exponential")', expect="dispatch"),
+        Mutant("guards: the gather that fixes the width of X1 is skipped", XE,
+               "        X1 = np.ascontiguousarray(X1[..., self._indexes])\n        if res is None:",
+               "        X1 = np.ascontiguousarray(X1)\n        if res is None:", expect="guards"),
+        Mutant("len: a continue skips the append on one path", ST,
+               "        for i in range(nvk):\n            if usps[i] == 0:\n                norms.append(ConstantNormalizer(2.0 / uegs[i]))",
+               "        for i in range(nvk):\n            if uegs[i] == 0:\n                continue\n            if usps[i] == 0:\n                norms.append(ConstantNormalizer(2.0 / uegs[i]))",
+               expect="len-agree"),
         # ---- rules of round 11
         Mutant("nonneg: lower bound of a count dropped", ST, "        assert 0 <= ndt <= len(pows)\n", "        assert ndt <= len(pows)\n",
                expect="len-agree"),
